@@ -13,8 +13,13 @@ SPEC = dict(
                "lg_k, any flavor; every sketch reachable by updates and every union result is valid) whose result stays in the "
                "C05 domain 8C < 475K: no panic; union.lg_k() and num_coupons() are the Spec's; to_sketch() is a valid sketch of "
                "exactly the Spec matrix (build_bit_matrix = Spec rows, num_coupons = popcount, offset = correct offset <= 56, "
-               "window iff flavor > Sparse, first interesting column sound, validate() = true, merged unless empty) "
-               "(c06_cpc_union_refines; per-step c06_union_update_refines for both union states, c06_cpc_union_result_wf). "
+               "window iff flavor > Sparse, first interesting column sound, validate() = true, merge_flag set - also for the "
+               "empty union, repaired) "
+               "(c06_cpc_union_refines; per-step c06_union_update_refines for both union states, c06_cpc_union_result_wf; "
+               "c06_union_result_updatable: a result stays a valid sketch under further updates). Table capacity as in C05: the "
+               "theorems assume that the two table walks of an update (reduce_k of a sparse accumulator, case A) never outgrow the "
+               "accumulator's table in whatever order the pairs are visited (usteps_fit) and that a dense result's surprising values "
+               "fit the table to_sketch builds (result_fits). "
                "Commutativity/associativity (any permutation of the inputs) and idempotence (a repeated input) of lg_k, coupon "
                "count, matrix, offset and flavor (c06_cpc_union_order_irrelevant, c06_cpc_union_repetition_irrelevant, and the same on "
                "the Spec). c06_union_bitmatrix_not_sparse: a union in the BitMatrix state holds >= 3K/32 coupons (the code relies "
@@ -29,12 +34,12 @@ SPEC = dict(
                "PairTable's slot layout, and with it the order in which walk_table_updating_sketch visits the source (golden-ratio "
                "stride over slots): the model walks the set in list order and the theorems hold for every order; the order only "
                "affects the accumulator's kxp/HIP registers, which are dead under merge_flag and are not compared. 'marked as "
-               "merged' is proved for non-empty results only: the result of a union that saw no coupons is a fresh sketch with "
-               "merge_flag = false (c06_empty_result_merged_refuted; harmless: an empty sketch estimates 0 either way; Java sets the "
-               "flag, C++ does not). Domain: if folding pushes the result beyond 8C >= 475K (59.4 of 64 columns full) to_sketch "
+               "merged' failed for the result of a union that saw no coupons (merge_flag false): recorded as finding "
+               "c06-cpc-empty-union-not-merged and repaired in /repo; the theorem now gives c_merge = true unconditionally. Domain: if folding pushes the result beyond 8C >= 475K (59.4 of 64 columns full) to_sketch "
                "builds a sketch with offset > 56, as for C05 outside the property. Seeds: all sketches of a union share the seed "
-               "(the crate asserts it). The 'deserialized inputs' clause is exercised by the correspondence run (model: identity), "
-               "its theorem is C11's. flavor() is modelled in unbounded arithmetic = the repaired u64 code (C17).",
+               "(the crate asserts it). Deserialized inputs: the C06 leg itself feeds deserialize(serialize(s)) (op sk_roundtrip, 35 % of the inputs "
+               "and half of the re-used results) to the crate's union and compares with the model fed s; there is no theorem that "
+               "a deserialized sketch equals the original (that is C11's CPC part: symbol-level coders only). flavor() is modelled in unbounded arithmetic = the repaired u64 code (C17).",
     technique="Coq: algebra of fold/OR on matrices (bit-level characterisations, popcount bound by induction on the fold depth), "
               "representation relation union state -> (lg_k, matrix), refinement by cases, laws through the closed form + "
               "differential correspondence model vs crate (debug+release) + exact OR-of-folded-matrices oracle",
@@ -44,5 +49,8 @@ SPEC = dict(
              "serialize/deserialize of inputs and results is replayed on the crate only (model: identity; C11)"],
     assumptions=["union lg_k and all sketch lg_k in 4..=26, one seed",
                  "inputs are valid sketches (reachable by updates, or results of unions of such)",
-                 "the result satisfies 8 * num_coupons < 475 * K (then every intermediate union does too)"],
+                 "the result satisfies 8 * num_coupons < 475 * K (then every intermediate union does too)",
+                 "table capacity (3/4 * 2^min(26, lg_k+5) pairs, PairTable::rebuild asserts beyond): usteps_fit (no order of walking "
+                 "a sparse source / a sparse accumulator into the accumulator outgrows its table) and result_fits (the dense "
+                 "result's surprising values fit); far from reach for hashed data, reachable by crafted inputs"],
 )
